@@ -90,7 +90,7 @@ example :
     bf.1.get? "x" = some (3/4) ∧
     (runSystem (fun g => g) gen false ⟨[], bf.1⟩ ([[⟨"RA", "x"⟩, ⟨"RB", "y"⟩]].map fun ns => ⟨ns, some bf.2⟩)).map
       (fun r => (r.2, r.1.volumes.get? "x", r.1.volumes.get? "y")) = some ([["x", "y"]], some (3/4), some (1/2)) := by
-  simp [readBuildFile, BfState.step, rekeyVolumes, runSystem, runMolecule, extractTemplateGraphs,
+  simp [readBuildFile, BfState.step, rekeyVolumes, rekeyPairs, r2hPairs, runSystem, runMolecule, extractTemplateGraphs,
     groupResiduesByHash, genTemplates, Dict.has, Dict.get?, Dict.set, Dict.update, mapFromCoG]
 
 /-- With `skip_filter` the attributes are the hashes as well. -/
@@ -135,17 +135,18 @@ example :
     Dict.set, Dict.update]
 
 /-- User sizes win.
-(1) `BuildDirector.finalize`: a `[ volumes ]` size of a residue name reaches the hash of the user's template
-    of that name and stays available under the name (hypotheses: no template hash of the build file is also
+(1) `BuildDirector.finalize`: a `[ volumes ]` size of a residue name reaches the hash of EVERY user template
+    of that name (`r2hPairs`: all (name, hash) pairs) and stays available under the name (hypotheses: no template hash of the build file is also
     one of its residue names; templates of other names with the same hash do not carry a different size).
 (2) `gen_templates`: when a template is generated for a hash whose residue name has a size, that size is
     stored for the hash (the computed one only otherwise) — and the stored template is the centred one.
 (3) A size stored under a key that has a template is never changed by `run_system`. -/
 theorem C15_user_wins_size :
-    (∀ (vols : Dict K) (r2h : Dict String), (∀ rh ∈ r2h, ∀ rh' ∈ r2h, rh.2 ≠ rh'.1) →
-      (∀ rh ∈ r2h, (rekeyVolumes vols r2h).get? rh.1 = vols.get? rh.1) ∧
-      (∀ rh ∈ r2h, ∀ v, vols.get? rh.1 = some v →
-        (∀ rh' ∈ r2h, rh'.2 = rh.2 → vols.get? rh'.1 = some v ∨ vols.get? rh'.1 = none) →
+    (∀ (vols : Dict K) (r2h : Dict (List String)),
+      (∀ rh ∈ r2hPairs r2h, ∀ rh' ∈ r2hPairs r2h, rh.2 ≠ rh'.1) →
+      (∀ rh ∈ r2hPairs r2h, (rekeyVolumes vols r2h).get? rh.1 = vols.get? rh.1) ∧
+      (∀ rh ∈ r2hPairs r2h, ∀ v, vols.get? rh.1 = some v →
+        (∀ rh' ∈ r2hPairs r2h, rh'.2 = rh.2 → vols.get? rh'.1 = some v ∨ vols.get? rh'.1 = none) →
         (rekeyVolumes vols r2h).get? rh.2 = some v)) ∧
     (∀ (gen : String → G → Generated K) (st st' : GTState K) (gh : String) (g : G)
         (rest : List (String × Option G)),
@@ -156,16 +157,17 @@ theorem C15_user_wins_size :
         (st fin : GTState K) (attrs : List (List String)),
       runSystem h gen sf st ms = some (fin, attrs) →
       ∀ k, st.templates.has k = true → fin.volumes.get? k = st.volumes.get? k) := by
-  refine ⟨fun vols r2h hd => rekeyVolumes_spec vols r2h hd, ?_, ?_⟩
+  refine ⟨fun vols r2h hd => rekeyPairs_spec vols (r2hPairs r2h) hd, ?_, ?_⟩
   · intro gen st st' gh g rest hnew hrun
     exact ⟨fun v hv => (genTemplates_user_volume gen st st' gh g rest v hnew hv hrun).1,
            fun hv => genTemplates_own_volume gen st st' gh g rest hnew hv hrun⟩
   · intro h gen sf ms st fin attrs hrun k hk
     exact runSystem_size_fixed h gen sf ms st fin attrs hrun k hk
 
-example : (rekeyVolumes ([("RA", (77 : Rat) / 100)] : Dict Rat) [("RA", "hashA")]).get? "hashA" = some (77 / 100) ∧
-    (rekeyVolumes ([("RA", (77 : Rat) / 100)] : Dict Rat) [("RA", "hashA")]).get? "RA" = some (77 / 100) := by
-  simp [rekeyVolumes, Dict.get?, Dict.set]
+example : (rekeyVolumes ([("RA", (77 : Rat) / 100)] : Dict Rat) [("RA", ["hashA", "hashB"])]).get? "hashA" = some (77 / 100) ∧
+    (rekeyVolumes ([("RA", (77 : Rat) / 100)] : Dict Rat) [("RA", ["hashA", "hashB"])]).get? "hashB" = some (77 / 100) ∧
+    (rekeyVolumes ([("RA", (77 : Rat) / 100)] : Dict Rat) [("RA", ["hashA", "hashB"])]).get? "RA" = some (77 / 100) := by
+  simp [rekeyVolumes, rekeyPairs, r2hPairs, Dict.get?, Dict.set]
 
 /-! ### templates are centred, one entry per atom name -/
 
